@@ -34,9 +34,10 @@ func (wu *WindowUpdate) SetIncrement(increment int) {
 }
 
 func (wu *WindowUpdate) Deserialize(fr *FrameHeader) error {
-	if len(fr.payload) < 4 {
+	if len(fr.payload) != 4 {
 		wu.increment = 0
-		return ErrMissingBytes
+		// A fixed-size frame: anything else is a FRAME_SIZE_ERROR (RFC 7540 6.9).
+		return NewGoAwayError(FrameSizeError, "WINDOW_UPDATE payload must be 4 octets")
 	}
 
 	wu.increment = int(http2utils.BytesToUint32(fr.payload) & (1<<31 - 1))
